@@ -191,6 +191,13 @@ def main(argv=None):
         rel = os.path.relpath(path, HERE)
         if rp.get("confirmed"):
             lines.append(f"VIOLATION property={prop} replay={rel}")
+        elif "confirmed" in rp and r.get("backend") == "exhaustive-finite" and not r.get("model"):
+            # the obligation was decided by running the real function on concrete inputs (no solver, no proxy layer): its failure is
+            # definitive.  The attached script is only an attempt at an end-to-end witness; when it does not show the failure at the
+            # program level the violation is reported without a failing input.
+            r["replay"]["note"] = "the end-to-end witness attempt did not show the failure; the obligation itself failed on the real function"
+            json.dump(r, open(path, "w"), indent=1, default=str)
+            lines.append(f"VIOLATION property={prop} replay={rel} obligation={r['id']} no-failing-input-found")
         elif "confirmed" in rp:
             # a counter-model was produced but the real code does not misbehave on it:
             # contract or proxy layer suspect -> undecided, never a violation (DESIGN 2.9)
